@@ -13,11 +13,11 @@ func init() {
 		}}
 	}
 	register(&Prop{
-		ID:    "C11",
-		Title: "The client is safe for concurrent use and its operations are atomic",
-		Decided: "lock discipline of Client.mu in both client packages: (L1) every access to a Client field other than mu, to a field of *core.Table/*core.index, and every call into core on a table is executed with the mutex held in every calling context (entry points start unheld; package-local callees inherit the join over their call sites); (L2) no path acquires the mutex while it is held, in particular the batch methods are unheld where they re-enter the locking single-item methods; (L3) every acquire is released on every exit and by defer wherever a callee may raise the documented interpreter panic; (L4) each locking method is a single critical section and touches no stored data after release; (L5) the mutex is never copied. With the Go memory model these give data-race freedom and per-call atomicity of the locking methods for any number of goroutines and any schedule.",
+		ID:         "C11",
+		Title:      "The client is safe for concurrent use and its operations are atomic",
+		Decided:    "lock discipline of Client.mu in both client packages: (L1) every access to a Client field other than mu, to a field of *core.Table/*core.index, and every call into core on a table is executed with the mutex held in every calling context (entry points start unheld; package-local callees inherit the join over their call sites); (L2) no path acquires the mutex while it is held, in particular the batch methods are unheld where they re-enter the locking single-item methods; (L3) every acquire is released on every exit and by defer wherever a callee may raise the documented interpreter panic; (L4) each locking method is a single critical section and touches no stored data after release; (L5) the mutex is never copied. With the Go memory model these give data-race freedom and per-call atomicity of the locking methods for any number of goroutines and any schedule.",
 		NotDecided: "linearizability of batch calls as a unit (they are compositions of atomic calls); races inside user-supplied native callbacks or through the *Native pointer handed out by GetNativeInterpreter; the numeric outcomes quoted in the statement (N ADD-1 updates give N) follow from atomicity plus C07, they are not computed here.",
-		Assumes: []string{"SDK and standard-library code does not call back into minidyn nor touch Client state (no callbacks are passed to it)", "guarded state = Client fields except mu, fields of core.Table/core.index, calls into core that take a *Table/*index"},
+		Assumes:    []string{"SDK and standard-library code does not call back into minidyn nor touch Client state (no callbacks are passed to it)", "guarded state = Client fields except mu, fields of core.Table/core.index, calls into core that take a *Table/*index"},
 		Rules: []RuleDef{
 			mk("L1", "lockset: guarded access ⇒ mutex held in every context", func(e *Engine, role string, r *lockResult, rule string) {
 				e.ruleL1(rule, r, nil)
